@@ -11,7 +11,7 @@ Definition leaf_table (gk : str) (T : table) : Prop :=
 (* ---- table equivalence => same parse and same dump, for all loaders and all inputs in the guard ---- *)
 Lemma equiv_tables_same_parse pv jl gk T inp :
   leaf_table gk T -> has_dot gk = false ->
-  argv_names_group gk inp = false -> env_names_group gk inp = false -> config_group_text pv gk inp = false ->
+  argv_names_group gk inp = false -> env_names_group gk inp = false -> config_group_nonmap pv gk inp = false ->
   run pv jl (with_load gk T) inp = run pv jl T inp.
 Proof.
   intros [Hl [Hd Hb]] Hdot Ha He Hc.
@@ -50,13 +50,14 @@ Qed.
 Lemma finding_class_zero pv gk fs inp :
   finding_class pv gk fs inp = 0%N ->
   well_formed gk fs = true /\ hyphen_safe gk (norm fs) = true
-  /\ argv_names_group gk inp = false /\ env_names_group gk inp = false /\ config_group_text pv gk inp = false.
+  /\ argv_names_group gk inp = false /\ env_names_group gk inp = false /\ config_group_nonmap pv gk inp = false.
 Proof.
   unfold finding_class.
   destruct (well_formed gk fs); simpl; [|discriminate].
   destruct (argv_names_group gk inp); [discriminate|].
   destruct (env_names_group gk inp); [discriminate|].
   destruct (config_group_text pv gk inp); [discriminate|].
+  destruct (config_group_nonmap pv gk inp); [discriminate|].
   destruct (hyphen_safe gk (norm fs)); simpl; [|discriminate].
   intros _. repeat split; reflexivity.
 Qed.
@@ -64,13 +65,14 @@ Qed.
 Lemma finding_class_fixed_zero pv gk fs inp :
   finding_class_fixed pv gk fs inp = 0%N ->
   well_formed gk fs = true
-  /\ argv_names_group gk inp = false /\ env_names_group gk inp = false /\ config_group_text pv gk inp = false.
+  /\ argv_names_group gk inp = false /\ env_names_group gk inp = false /\ config_group_nonmap pv gk inp = false.
 Proof.
   unfold finding_class_fixed.
   destruct (well_formed gk fs); simpl; [|discriminate].
   destruct (argv_names_group gk inp); [discriminate|].
   destruct (env_names_group gk inp); [discriminate|].
   destruct (config_group_text pv gk inp); [discriminate|].
+  destruct (config_group_nonmap pv gk inp); [discriminate|].
   intros _. repeat split; reflexivity.
 Qed.
 
@@ -173,6 +175,7 @@ Definition w_in_argv5 : input := w_args [(dashes ++ w_g, w_five)].              
 Definition w_in_env : input := {| i_env := [([65;80;80;95;71]%N, w_json_a2)]; i_entry := EArgs [] |}.   (* APP_G *)
 Definition w_in_obj_str : input := {| i_env := []; i_entry := EObject [(w_g, VStr w_json_a2)] |}.
 Definition w_in_obj_null : input := {| i_env := []; i_entry := EObject [(w_g, VNone)] |}.
+Definition w_in_obj_five : input := {| i_env := []; i_entry := EObject [(w_g, VInt 5)] |}.
 Definition w_in_plain : input := w_args [(dashes ++ w_g ++ [c_dot] ++ w_a, w_two)]. (* --g.a=2 *)
 Definition w_in_req : input := w_args [(dashes ++ w_myg ++ [c_dot] ++ w_f, w_two)]. (* --my-g.f=2 *)
 
@@ -222,12 +225,10 @@ Proof. exists w_pv, w_jl, w_g, w_fields, w_in_env. repeat split; vm_compute; ref
 Lemma dotted_group_key_string_refuted :
   exists pv jl gk fs inp,
     finding_class pv gk fs inp = 3%N
-    /\ (exists c d, run pv jl (as_dotted gk (norm fs)) inp = Ok (c, d) /\ lookup gk c = Some (TLeaf (VStr w_json_a2)))
+    /\ is_reject (run pv jl (as_dotted gk (norm fs)) inp) = true
     /\ group_value (run pv jl (as_class_group gk fs) inp) gk w_a = Some (VInt 2).
 Proof.
-  exists w_pv, w_jl, w_g, w_fields, w_in_obj_str. split; [vm_compute; reflexivity|]. split.
-  - eexists. eexists. split; vm_compute; reflexivity.
-  - vm_compute; reflexivity.
+  exists w_pv, w_jl, w_g, w_fields, w_in_obj_str. repeat split; vm_compute; reflexivity.
 Qed.
 
 Lemma dotted_group_key_null_refuted :
@@ -236,6 +237,17 @@ Lemma dotted_group_key_null_refuted :
     /\ dumped (run pv jl (as_dotted gk (norm fs)) inp) = Some [(gk, TLeaf VNone)]
     /\ dumped (run pv jl (as_class_group gk fs) inp) = Some [].
 Proof. exists w_pv, w_jl, w_g, w_fields, w_in_obj_null. repeat split; vm_compute; reflexivity. Qed.
+
+(* class 4: a number for the group key: rejected by the dotted style, REPLACES the group in the others *)
+Lemma group_key_scalar_refuted :
+  exists pv jl gk fs inp,
+    finding_class pv gk fs inp = 4%N
+    /\ is_reject (run pv jl (as_dotted gk (norm fs)) inp) = true
+    /\ (exists c d, run pv jl (as_class_group gk fs) inp = Ok (c, d) /\ lookup gk c = Some (TLeaf (VInt 5))).
+Proof.
+  exists w_pv, w_jl, w_g, w_fields, w_in_obj_five. split; [vm_compute; reflexivity|]. split; [vm_compute; reflexivity|].
+  eexists. eexists. split; vm_compute; reflexivity.
+Qed.
 
 (* class 5: hyphen in the key of an inner parser with a required option: every input is rejected *)
 Lemma inner_hyphen_required_refuted :
